@@ -10,6 +10,7 @@ API.
 """
 
 import json
+import os
 import pathlib
 import struct
 from tempfile import TemporaryDirectory
@@ -44,8 +45,11 @@ class OnDiskBytesDict(dict):
         self._key_to_filename: Dict[Any, str] = {}
 
     def _delete(self, key):
-        filename = self._key_to_filename.pop(key)
+        # Forget the key only once the file is really gone, so that a failed
+        # unlink does not lose the buffered value
+        filename = self._key_to_filename[key]
         (self._tmp_dir / filename).unlink()
+        del self._key_to_filename[key]
 
     def __setitem__(self, key, value):
         assert isinstance(value, bytes), "Can only set bytes"
@@ -108,9 +112,19 @@ class OnDiskByteArray:
         return self._len
 
     def __add__(self, o):
+        try:
+            with open(self._file, "ab") as fp:
+                fp.write(o)
+        except OSError:
+            # Do not leave a partial write behind, and do not count bytes that
+            # were not stored: the recorded length is used to compute the
+            # offsets in the shard index.
+            try:
+                os.truncate(self._file, self._len)
+            except OSError:
+                pass
+            raise
         self._len += len(o)
-        with open(self._file, "ab") as fp:
-            fp.write(o)
         return self
 
     def __radd__(self, o):
@@ -221,8 +235,11 @@ class MiniShard(CMCReadWrite):
     def flush_buffer(self):
         """In the event that """
         while self.next_cmc in self._chunk_buffer:
-            buffer = self._chunk_buffer.pop(self.next_cmc)
-            self.append(buffer, self.next_cmc)
+            # Remove the chunk from the buffer only once it has been appended,
+            # so that it is not lost if the append fails
+            cmc = self.next_cmc
+            self.append(self._chunk_buffer[cmc], cmc)
+            self._chunk_buffer.pop(cmc)
 
         if any(key < self.next_cmc for key in self._chunk_buffer.keys()):
             raise ShardedIOError(f"Key exist that is less than id to check"
